@@ -554,6 +554,11 @@ func report(p *Property, tier string, seed int64, m *merged, wall float64) int {
 		"wall_s":      wall,
 		"violations":  nViol,
 	}
+	if p.Inconclusive != nil && len(m.inconcl) == 0 {
+		if why := p.Inconclusive(m.counters); why != "" {
+			m.inconcl = append(m.inconcl, why)
+		}
+	}
 	status := "held"
 	code := 0
 	if nViol > 0 {
